@@ -449,6 +449,34 @@ def gen_shape(rng, nodes, order_for_lists, val, allow_none_entries=True, malform
     return ['dict', [[i, entry()] for i in keys]]
 
 
+EXTRA_ATTRS = ['holding_cost', 'shipment_lead_time', 'lead_time', 'order_lead_time', 'echelon_holding_cost', 'in_transit_holding_cost',
+               'revenue', 'initial_inventory_level', 'initial_orders', 'initial_shipments', 'processing_time',
+               'external_inbound_cst', 'external_outbound_cst', 'demand_bound_constant', 'units_required', 'order_capacity']
+
+
+def attr_val(rng):
+    """attribute value; zero (int and float) is frequent because 0 must be kept distinct from None"""
+    r = rng.random()
+    if r < 0.2: return 0
+    if r < 0.3: return 0.0
+    return rng.randint(1, 9)
+
+
+def add_extras(rng, c, nodes, order, k=None):
+    """further copied attributes (oracle only): random subset, every shape, values incl. 0 / 0.0; round_to_int incl. False"""
+    def mk(val):
+        shape = rng.choice(['scalar', 'list', 'dict'])
+        ent = lambda: None if rng.random() < 0.15 else val()
+        if shape == 'scalar': return ['scalar', val()]
+        if shape == 'list': return ['list', [ent() for _ in order]]
+        return ['dict', [[i, ent()] for i in nodes if rng.random() < 0.8]]
+    names = rng.sample(EXTRA_ATTRS, rng.randint(0, 4) if k is None else k)
+    ex = [[nm, mk(lambda: attr_val(rng))] for nm in names]
+    if rng.random() < 0.5: ex.append(['round_to_int', mk(lambda: rng.random() < 0.5)])
+    c['extra'] = ex
+    return c
+
+
 def gen_builder(rng, maxn=5):
     kind = rng.choice(['nfe', 'single', 'serial', 'serial', 'owmr', 'owmr', 'mwor', 'mwor'])
     c = {'stream': 'builder', 'kind': kind, 'malformed': None}
@@ -504,8 +532,8 @@ def gen_builder(rng, maxn=5):
             n = max(0, len(order) + rng.choice([-1, 1]))
             s = ['list', [val() for _ in range(n)]]
         return s
-    c['hc'] = shape('hc', lambda: rng.randint(1, 9))
-    c['so'] = shape('so', lambda: rng.randint(1, 9))
+    c['hc'] = shape('hc', lambda: attr_val(rng))
+    c['so'] = shape('so', lambda: attr_val(rng))
     c['ds'] = shape('ds', lambda: rng.choice(['T', 'T', 'U'])) if rng.random() < 0.55 else ['none']
     c['dt'] = shape('dt', lambda: rng.choice(['N', 'P', 'UD'])) if rng.random() < 0.7 else ['none']
     if mal == 'list-length':
@@ -513,6 +541,7 @@ def gen_builder(rng, maxn=5):
     c['st'] = gen_shape(rng, nodes, order, lambda: rng.choice(['U', None])) if rng.random() < 0.4 else ['none']   # ignored by the code
     if c['st'][0] == 'list' and len(c['st'][1]) != len(order): c['st'] = ['none']
     c['bogus'] = (c['malformed'] is None and rng.random() < 0.03)
+    add_extras(rng, c, nodes, order)
     return c
 
 
@@ -553,6 +582,8 @@ def run_impl_builder(c):
                             ('ds', 'demand_source', mk_ds), ('dt', 'demand_type', lambda v: v), ('st', 'supply_type', lambda v: v)):
         if c[name][0] != 'none':
             kw[key] = py_kw(c[name], conv)
+    for name, sh in c.get('extra', []):
+        kw[name] = py_kw(sh)
     if c.get('bogus'): kw['no_such_attribute'] = 1
     if c['dt'][0] != 'none':
         kw['mean'] = 10; kw['standard_deviation'] = 2
@@ -574,7 +605,10 @@ def run_impl_builder(c):
              (n.supply_type is not None, has_dem(n))) for n in net.nodes],
            list(net.product_indices),
            ([(n.index, n.local_holding_cost) for n in net.nodes], [(n.index, n.stockout_cost) for n in net.nodes]))
-    return ('ok', obs), net
+    extras = {name: [(n.index, getattr(n, name)) for n in net.nodes] for name, _ in c.get('extra', []) if name not in ('round_to_int', 'holding_cost', 'lead_time')}
+    extras['shipment_lead_time'] = [(n.index, n.shipment_lead_time) for n in net.nodes]
+    extras['round_to_int'] = [(n.index, n.demand_source.round_to_int if n.demand_source is not None else None) for n in net.nodes]
+    return ('ok', obs, extras), net
 
 
 def coq_arg(s, val):
@@ -585,8 +619,16 @@ def coq_arg(s, val):
     return '(ADict %s)' % clist(['(%s, %s)' % (cnat(k), o(v)) for k, v in s[1]])
 
 
+def extra_of(c, name):
+    for nm, sh in c.get('extra', []):
+        if nm == name: return sh
+    return None
+
+
 def coq_builder(c):
-    A = '(mkArgs %s %s %s %s)' % (coq_arg(c['hc'], cnat), coq_arg(c['so'], cnat),
+    hc = c['hc']
+    if hc[0] == 'none' and extra_of(c, 'holding_cost') is not None: hc = extra_of(c, 'holding_cost')     # the alias keyword
+    A = '(mkArgs %s %s %s %s)' % (coq_arg(hc, cnat), coq_arg(c['so'], cnat),
                                   coq_arg(c['ds'], lambda v: cbool(v == 'T')), coq_arg(c['dt'], lambda v: cnat(DT_TAG[v])))
     nl = lambda l: clist([cnat(x) for x in l])
     lists = 'None' if c['lists'] is None else '(Some %s)' % nl(c['lists'])
@@ -608,7 +650,7 @@ def expected_entry(s, order, i):
     return None
 
 
-def oracle_builder(c, obs):
+def oracle_builder(c, obs, extras=None):
     """documented postconditions, computed from the arguments alone"""
     from collections import Counter
     bad = []
@@ -646,12 +688,32 @@ def oracle_builder(c, obs):
             if k == 'mwor' and c['ds'][0] == 'list': sig = 'demand_source-list-wrong-slot'
             elif k == 'mwor' and c['dt'][0] in ('list', 'dict') and i != sys_[-1]: sig = 'per-node-demand_type-at-warehouse'
             B(sig, 'node %d has demand=%s, documented %s' % (i, dem, want))
+    def same(v, want):
+        return (v is None) == (want is None) and (v is None or (v == want and isinstance(v, bool) == isinstance(want, bool)))
+    ex = {nm: sh for nm, sh in c.get('extra', [])}
+    dem_by_dt = {}
+    for (i, p, s, prods, (ext, dem)) in nodes_obs:
+        dem_by_dt[i] = dem and expected_entry(c['ds'], order, i) is None
     for (i, v) in hc:
-        if v != expected_entry(c['hc'], order, i): B('attribute-mapping', 'node %d local_holding_cost=%r, documented %r (shape %s)' % (i, v, expected_entry(c['hc'], order, i), c['hc'][0]))
+        want = expected_entry(c['hc'], order, i)
+        if want is None and 'holding_cost' in ex: want = expected_entry(ex['holding_cost'], order, i)
+        if not same(v, want): B('attribute-mapping', 'node %d local_holding_cost=%r, documented %r (shape %s)' % (i, v, want, c['hc'][0]))
+    if extras is not None:
+        for name, vals in extras.items():
+            for (i, v) in vals:
+                if name == 'shipment_lead_time':
+                    want = expected_entry(ex['shipment_lead_time'], order, i) if 'shipment_lead_time' in ex else None
+                    if want is None and 'lead_time' in ex: want = expected_entry(ex['lead_time'], order, i)
+                elif name == 'round_to_int':
+                    if not dem_by_dt.get(i): continue          # only a DemandSource constructed from demand_type carries it
+                    want = expected_entry(ex['round_to_int'], order, i) if 'round_to_int' in ex else None
+                else:
+                    want = expected_entry(ex[name], order, i)
+                if not same(v, want): B('attribute-mapping', 'node %d %s=%r, documented %r (shape %s)' % (i, name, v, want, ex.get(name, ex.get('lead_time', ['none']))[0]))
     for (i, v) in so:
         want = expected_entry(c['so'], order, i)
         if k == 'serial' and i != sys_[-1]: want = 0
-        if v != want: B('attribute-mapping', 'node %d stockout_cost=%r, documented %r (shape %s)' % (i, v, want, c['so'][0]))
+        if not same(v, want): B('attribute-mapping', 'node %d stockout_cost=%r, documented %r (shape %s)' % (i, v, want, c['so'][0]))
     return bad
 
 
@@ -899,9 +961,10 @@ def enum_builders(rng, sizes):
                                 return ['dict', [[i, None if rng.random() < 0.15 else val()] for i in nodes if rng.random() < 0.8]]
                             c['ds'] = mk(ds_s, lambda: rng.choice(['T', 'T', 'U']))
                             c['dt'] = mk(dt_s, lambda: rng.choice(['N', 'P', 'UD']))
-                            c['hc'] = mk(rng.choice(SHAPES), lambda: rng.randint(1, 9))
-                            c['so'] = mk(rng.choice(SHAPES), lambda: rng.randint(1, 9))
+                            c['hc'] = mk(rng.choice(SHAPES), lambda: attr_val(rng))
+                            c['so'] = mk(rng.choice(SHAPES), lambda: attr_val(rng))
                             c['st'] = mk(rng.choice(SHAPES), lambda: rng.choice(['U', None]))
+                            add_extras(rng, c, nodes, order)
                             out.append(c)
     return out
 
@@ -929,13 +992,50 @@ def enum_malformed(rng):
                     lists = nodes[:]; rng.shuffle(lists)
                     if mal == 'order-set':
                         lists[rng.randrange(len(lists))] = max(nodes) + 1 + rng.randrange(3)
-                        c['hc'] = ['list', [rng.randint(1, 9) for _ in lists]]
+                        c['hc'] = ['list', [attr_val(rng) for _ in lists]]
                     else:
                         if rng.random() < 0.5: lists = None
                         n = len(nodes) + rng.choice([-1, 1])
-                        c['hc'] = ['list', [rng.randint(1, 9) for _ in range(n)]]
-                    c['lists'] = lists; c['malformed'] = mal
+                        c['hc'] = ['list', [attr_val(rng) for _ in range(n)]]
+                    c['lists'] = lists; c['malformed'] = mal; c['extra'] = []
                     out.append(c)
+    return out
+
+
+def enum_zero(rng):
+    """systematic part: for every builder, every copied attribute (modelled and extra) and every shape, a value of exactly
+    0 (int or float; False for round_to_int) at some node, non-zero elsewhere"""
+    out = []
+    for kind in ('nfe', 'single', 'serial', 'owmr', 'mwor'):
+        for attr in ['hc', 'so'] + EXTRA_ATTRS + ['round_to_int']:
+            for shape in ('scalar', 'list', 'dict'):
+                size = 1 if kind == 'single' else rng.randint(2, 4)
+                c = {'stream': 'builder', 'kind': kind, 'malformed': None, 'bogus': False, 'ds': ['none'], 'dt': ['scalar', 'N'],
+                     'hc': ['none'], 'so': ['none'], 'st': ['none'], 'extra': []}
+                relabel = rng.random() < 0.5
+                if kind == 'nfe':
+                    labels = rng.sample(range(10), size) if relabel else list(range(size))
+                    c['edges'] = [[labels[j - 1], labels[j]] for j in range(1, size)]; c['sys'] = None; nodes = labels
+                elif kind == 'single':
+                    c['index'] = rng.randrange(10) if relabel else None; c['sys'] = None; nodes = [0 if c['index'] is None else c['index']]
+                else:
+                    c['size'] = size
+                    default = list(range(size)) if kind in ('serial', 'owmr') else list(range(1, size)) + [0]
+                    c['sys'] = rng.sample(range(10), size) if relabel else None
+                    nodes = c['sys'] if c['sys'] is not None else default
+                lists = None
+                if kind != 'single' and rng.random() < 0.5: lists = nodes[:]; rng.shuffle(lists)
+                c['lists'] = lists
+                order = lists if lists is not None else (sorted(nodes) if kind == 'nfe' else nodes)
+                zero = False if attr == 'round_to_int' else rng.choice([0, 0.0])
+                other = (lambda: True) if attr == 'round_to_int' else (lambda: rng.randint(1, 9))
+                zpos = rng.randrange(len(order))
+                if shape == 'scalar': v = ['scalar', zero]
+                elif shape == 'list': v = ['list', [zero if j == zpos else other() for j in range(len(order))]]
+                else: v = ['dict', [[i, zero if i == order[zpos] else other()] for i in nodes]]
+                if attr in ('hc', 'so'): c[attr] = v
+                else: c['extra'] = [[attr, v]]
+                out.append(c)
     return out
 
 
@@ -947,6 +1047,10 @@ def check_builder_case(chk, c, im, m=None, do_model=True):
     fn = builder_fn(c)
     chk.count('builder=%s' % c['kind']); chk.count('builder_malformed=%s' % (c['malformed'] or ('bogus' if c.get('bogus') else None)))
     for a in ('hc', 'so', 'ds', 'dt'): chk.count('shape_%s=%s' % (a, c[a][0]))
+    for a in ('hc', 'so'):
+        vals = [c[a][1]] if c[a][0] == 'scalar' else ([v for v in c[a][1]] if c[a][0] == 'list' else ([v for _, v in c[a][1]] if c[a][0] == 'dict' else []))
+        if any(v is not None and v == 0 for v in vals): chk.count('zero_value_%s' % a)
+    for nm, sh in c.get('extra', []): chk.count('extra_attr=%s' % nm)
     chk.count('node_order_in_lists=%s' % ('given' if c['lists'] is not None else 'None'))
     _, nodes = builder_nodes(c)
     if c.get('bogus'):
@@ -963,7 +1067,7 @@ def check_builder_case(chk, c, im, m=None, do_model=True):
     elif im[0] == 'err':
         chk.fail('%s|raises-%s' % (fn, im[1]), 'valid arguments raise %s: %s' % (im[1], im[2]), c)
     else:
-        for sig, what in oracle_builder(c, im[1]):
+        for sig, what in oracle_builder(c, im[1], im[2] if len(im) > 2 else None):
             chk.fail('%s|%s' % (fn, sig), what, c)
     if do_model:
         chk.traces += 1
@@ -971,14 +1075,18 @@ def check_builder_case(chk, c, im, m=None, do_model=True):
         if im[0] == 'err':
             if mm[0] != 'err' or mm[1] != im[1]:
                 chk.mismatch('%s: implementation raises %s, model gives %r' % (fn, im[1], mm[:2] if mm[0] == 'err' else 'ok'), c)
-        elif jsonable(mm) != jsonable(im):
-            chk.mismatch('%s: implementation %r vs model %r' % (fn, jsonable(im)[1], jsonable(mm)[1] if mm[0] == 'ok' else mm), c)
+        else:
+            a = jsonable(im[:2]); b = jsonable(mm)
+            if c['hc'][0] != 'none' and extra_of(c, 'holding_cost') is not None and b[0] == 'ok':
+                a[1][2][0] = b[1][2][0] = None        # local_holding_cost with a holding_cost fallback: oracle only
+            if a != b:
+                chk.mismatch('%s: implementation %r vs model %r' % (fn, a[1], b[1] if b[0] == 'ok' else b), c)
     key = json.dumps(jsonable({k: v for k, v in c.items() if k != 'stream'}), sort_keys=True)
     chk.case(c, im[0] == 'ok' and len(nodes) >= 2, key=key)
 
 
 def explore_builders(chk, n, sizes, do_model=True):
-    cases = [gen_builder(chk.rng, max(sizes)) for _ in range(n)] + enum_builders(chk.rng, sizes) + enum_malformed(chk.rng)
+    cases = [gen_builder(chk.rng, max(sizes)) for _ in range(n)] + enum_builders(chk.rng, sizes) + enum_malformed(chk.rng) + enum_zero(chk.rng)
     impl = [run_impl_builder(c)[0] for c in cases]
     todo = [i for i, c in enumerate(cases) if not c.get('bogus')]
     model = {}
@@ -1053,6 +1161,7 @@ def replay(chk, rp):
     elif st == 'builder':
         im, _ = run_impl_builder(c)
         print('implementation:', jsonable(im))
+        c.setdefault('extra', [])
         check_builder_case(chk, c, im, None, do_model=False)
         return
     elif st == 'levels':
